@@ -4,6 +4,7 @@ import (
 	"bytes"
 	"context"
 	"fmt"
+	"io"
 	"net/http"
 	"net/http/httptest"
 	"os"
@@ -19,6 +20,7 @@ import (
 	"github.com/nuts-foundation/nuts-node/core"
 	"github.com/nuts-foundation/nuts-node/crypto/hash"
 	"github.com/nuts-foundation/nuts-node/discovery"
+	httpclient "github.com/nuts-foundation/nuts-node/http/client"
 	"github.com/nuts-foundation/nuts-node/network/dag"
 	"github.com/nuts-foundation/nuts-node/vcr/pe"
 
@@ -152,7 +154,7 @@ func init() {
 				s.Case(name, shelf+"/leaf="+vn, true, true, func() ([]byte, func() string) {
 					return variants[vn], func() string {
 						seq++
-						dir := filepath.Join(os.TempDir(), fmt.Sprintf("c19leaf%d", seq))
+						dir := filepath.Join(os.TempDir(), fmt.Sprintf("c19leaf-%d-%d", os.Getpid(), seq))
 						_ = os.MkdirAll(dir, 0o755)
 						path := filepath.Join(dir, "dag.db")
 						open := func() (stoabs.KVStore, dag.State) {
@@ -208,6 +210,104 @@ func init() {
 		}
 	})
 
+	// ---- the caching HTTP transport (did:web documents, status lists, definitions): the REMOTE server decides body
+	// length and cache headers. Small cache (100 bytes) so that the size boundaries are cheap to reach; sequences of 1-4
+	// responses. Not sharded and late: a non-terminating insert leaves spinning goroutines behind.
+	register("zy-http-cache", func(t *testing.T, s *crash.Sweep, thorough bool) {
+		name := "http/client.CachingRoundTripper"
+		if !s.WantEntry(name) || !s.FirstShard() {
+			return
+		}
+		s.EntryDeadline[name] = 3 * time.Second
+		const maxBytes = 100
+		type resp struct {
+			size int
+			cc   string // Cache-Control; "expires-future"/"expires-past" use the Expires header instead
+		}
+		call := func(seq []resp, sameURL bool) func() string {
+			return func() string {
+				i := 0
+				tr := httpclient.NewCachingTransport(roundTripFunc(func(req *http.Request) (*http.Response, error) {
+					r := seq[i%len(seq)]
+					h := http.Header{}
+					switch r.cc {
+					case "expires-future":
+						h.Set("Expires", time.Now().Add(time.Hour).UTC().Format(http.TimeFormat))
+					case "expires-past":
+						h.Set("Expires", time.Now().Add(-time.Hour).UTC().Format(http.TimeFormat))
+					case "":
+					default:
+						h.Set("Cache-Control", r.cc)
+					}
+					h.Set("Date", time.Now().UTC().Format(http.TimeFormat))
+					return &http.Response{StatusCode: 200, Status: "200 OK", Header: h, Body: io.NopCloser(bytes.NewReader(bytes.Repeat([]byte("x"), r.size))), Request: req, ContentLength: int64(r.size)}, nil
+				}), maxBytes)
+				out := "ok"
+				for ; i < len(seq); i++ {
+					u := "https://remote.example.com/doc"
+					if !sameURL {
+						u = fmt.Sprintf("https://remote.example.com/doc/%d", i)
+					}
+					for rep := 0; rep < 2; rep++ { // second request: served from the cache (or fetched again)
+						req, _ := http.NewRequest(http.MethodGet, u, nil)
+						res, err := tr.RoundTrip(req)
+						if err != nil {
+							out = "err"
+							continue
+						}
+						b, _ := io.ReadAll(res.Body)
+						if len(b) != seq[i].size && !sameURL {
+							return fmt.Sprintf("!wrong-body: response %d has %d bytes, the server sent %d", i, len(b), seq[i].size)
+						}
+					}
+				}
+				return out
+			}
+		}
+		run := func(seq []resp) {
+			for _, same := range []bool{false, true} {
+				if same && len(seq) == 1 {
+					continue
+				}
+				seq, same := seq, same
+				s.Case(name, fmt.Sprintf("%v/sameURL=%v", seq, same), false, false, func() ([]byte, func() string) { return []byte(fmt.Sprint(seq)), call(seq, same) })
+			}
+		}
+		sizes := []int{0, 1, 30, maxBytes - 1, maxBytes, maxBytes + 1}
+		ccs := []string{"max-age=60", "max-age=120", "max-age=0", "max-age=99999999", "no-store", "private", "", "expires-future", "expires-past", "max-age=x", "public, max-age=60, must-revalidate"}
+		var alphabet []resp
+		for _, sz := range sizes {
+			for _, cc := range ccs {
+				alphabet = append(alphabet, resp{sz, cc})
+			}
+		}
+		for _, a := range alphabet {
+			run([]resp{a})
+		}
+		for _, a := range alphabet {
+			for _, b := range alphabet {
+				if s.Stopped() {
+					return
+				}
+				run([]resp{a, b})
+			}
+		}
+		small := []resp{{30, "max-age=60"}, {30, "max-age=120"}, {40, "max-age=60"}, {40, "max-age=30"}}
+		var rec func(prefix []resp, depth int)
+		rec = func(prefix []resp, depth int) {
+			if len(prefix) >= 3 {
+				run(prefix)
+			}
+			if len(prefix) == depth || s.Stopped() {
+				return
+			}
+			for _, a := range small {
+				rec(append(append([]resp{}, prefix...), a), depth)
+			}
+		}
+		rec(nil, 5)
+	})
+
 	// ---- catastrophic-backtracking patterns of a REMOTE presentation definition against a 30-40 character claim.
 	// Not sharded and registered last: a non-terminating match leaves spinning goroutines behind.
 	register("zz-pe-redos", func(t *testing.T, s *crash.Sweep, thorough bool) {
@@ -245,3 +345,7 @@ func init() {
 		}
 	})
 }
+
+type roundTripFunc func(*http.Request) (*http.Response, error)
+
+func (f roundTripFunc) RoundTrip(r *http.Request) (*http.Response, error) { return f(r) }
